@@ -239,6 +239,10 @@ func (z *Decimal) Parse(s string, base int) (d *Decimal, b int, err error) {
 	} else if err2 != io.EOF {
 		err = err2
 	}
+	if err != nil {
+		// as documented: no result if an error is reported
+		d = nil
+	}
 
 	return
 }
